@@ -9,7 +9,7 @@ _CONST = [('R6', r'const (\w+): &\[char\] = &\[([^\]]*)\];',
 
 KEY_UNITS = [
     dict(id='T.MixedQualifierKey', kind='enum', name='MixedQualifierKey', file=F),
-    dict(id='theory.qual', kind='raw', text=_c.theory_text('qual.rs') + '''
+    dict(id='theory.qual', kind='raw', text=_c.theory_text('qualkeys.rs') + _c.theory_text('qual.rs') + '''
 impl<S: AsRef<str>> MixedQualifierKey<S> {
     pub open spec fn text(&self) -> Seq<char> {
         match self { MixedQualifierKey::Lower(s) => s.text(), MixedQualifierKey::Mixed(s) => s.text() }
@@ -119,7 +119,22 @@ MAP_UNITS = [
          hoist=[('R5', r'self\.qualifiers\.binary_search_by\(\|\(qk, _qv\)\| (.*)\)(?=\s*\}\s*$)',
                  '''pub fn search_cmp<K: AsRef<str>>(qk: &QualifierKey, key: &MixedQualifierKey<K>) -> (r: Ordering)
     ensures r == lex_cmp(qk.0@, lower_seq(key.text()))
-{ \\1 }''', 'x_binary_search_keys(&self.qualifiers, key)')],
+{ \\1 }
+/// `v.binary_search_by(|(qk, _qv)| search_cmp(qk, key))` -- std's documented contract for a partitioned slice
+#[verifier::external_body]
+pub fn x_binary_search_keys<K: AsRef<str>>(v: &Vec<(QualifierKey, SmallString)>, key: &MixedQualifierKey<K>) -> (r: Result<usize, usize>)
+    requires
+        forall|i: int, j: int| 0 <= i < j < v.len() ==>
+            ord_rank(key_cmp(#[trigger] v[i], lower_seq(key.text()))) <= ord_rank(key_cmp(#[trigger] v[j], lower_seq(key.text()))),
+    ensures
+        match r {
+            Ok(i) => i < v.len() && key_cmp(v[i as int], lower_seq(key.text())) is Equal,
+            Err(i) => i <= v.len()
+                && (forall|j: int| 0 <= j < i ==> key_cmp(#[trigger] v[j], lower_seq(key.text())) is Less)
+                && (forall|j: int| i <= j < v.len() ==> key_cmp(#[trigger] v[j], lower_seq(key.text())) is Greater),
+        },
+{ v.binary_search_by(|(qk, _qv)| search_cmp(qk, key)) }
+''', 'x_binary_search_keys(&self.qualifiers, key)')],
          # R10: the tail expression is bound to a name so that a proof block can follow it
          hints=[(r'x_binary_search_keys\(&self\.qualifiers, key\)', 'before', '        let res ='),
                 (r'x_binary_search_keys\(&self\.qualifiers, key\)', 'after', '''        ;
@@ -416,10 +431,37 @@ MAP_UNITS4 = [
             }),"""),
 ]
 
+
+TYPED_UNITS = [
+    dict(id='T.KnownQualifierKey', kind='trait', name='KnownQualifierKey', file='purl/src/qualifiers/well_known.rs'),
+    dict(id='U-qmap.insert_typed', file=F, fn='insert_typed', ctx=_Q, wrap='impl Qualifiers', properties=['C11', 'C06', 'C09'], ret=None,
+         # documented panic: KEY must be a valid key  => precondition
+         contract="""        requires old(self).wf(), valid_key(Q::KEY@)
+        ensures final(self).wf(),
+            <SmallString as vstd::std_specs::convert::FromSpec<Q>>::obeys_from_spec() ==> ({
+                let k = lower_ascii_seq(Q::KEY@);
+                let p = pos_of(old(self).qualifiers@, k);
+                let val = <SmallString as vstd::std_specs::convert::FromSpec<Q>>::from_spec(value);
+                if has_key(old(self).qualifiers@, k) {
+                    final(self).qualifiers@ == old(self).qualifiers@.update(p, (old(self).qualifiers@[p].0, val))
+                } else {
+                    final(self).qualifiers@.len() == old(self).qualifiers@.len() + 1 && final(self).qualifiers@[p].0.0@ == k
+                    && final(self).qualifiers@ == old(self).qualifiers@.insert(p, (final(self).qualifiers@[p].0, val))
+                }
+            })""",
+         ),
+    dict(id='U-qmap.remove_typed', file=F, fn='remove_typed', ctx=_Q, wrap='impl Qualifiers', properties=['C11', 'C09'], ret=None,
+         contract="""        requires old(self).wf()
+        ensures final(self).wf(),
+            !(valid_key(Q::KEY@) && has_key(old(self).qualifiers@, lower_ascii_seq(Q::KEY@))) ==> final(self).qualifiers@ == old(self).qualifiers@,
+            valid_key(Q::KEY@) && has_key(old(self).qualifiers@, lower_ascii_seq(Q::KEY@)) ==>
+                final(self).qualifiers@ == old(self).qualifiers@.remove(pos_of(old(self).qualifiers@, lower_ascii_seq(Q::KEY@)))"""),
+]
+
 GROUP = dict(
     name='qual',
     theory=['base.rs'],
     uses='use core::cmp::Ordering;\nuse core::marker::PhantomData;\nuse core::mem;',
     canary='    axiom_string_from(); broadcast use axiom_ascii_to_lower; broadcast use axiom_view_of_str; axiom_from_keeps_text::<&str>();',
-    units=[_c.PURL_FIELD, _c.PARSE_ERROR, _c.QUALIFIER_KEY, _c.QUALIFIERS] + KEY_UNITS + CMP_UNITS + MAP_UNITS + MAP_UNITS2 + MAP_UNITS3 + MAP_UNITS4,
+    units=[_c.PURL_FIELD, _c.PARSE_ERROR, _c.QUALIFIER_KEY, _c.QUALIFIERS] + KEY_UNITS + CMP_UNITS + MAP_UNITS + MAP_UNITS2 + MAP_UNITS3 + MAP_UNITS4 + TYPED_UNITS,
 )
